@@ -6,6 +6,7 @@ verus! {
 
 //@include prelude/errors.rs
 //@include prelude/opaque_payloads.rs
+//@include prelude/opaque_command.rs
 //@include prelude/std_specs.rs
 //@include prelude/provider.rs
 
